@@ -162,6 +162,16 @@ func factsDeterminism() {
 						}
 					case *ast.GoStmt:
 						gos = append(gos, [2]string{fn, name})
+					case *ast.SelectorExpr:
+						// maps.Keys / maps.Values (golang.org/x/exp/maps, or the standard library's iterators): the elements of
+						// a map in its iteration order, without a `range` statement
+						if id, ok := t.X.(*ast.Ident); ok && id.Name == "maps" && (t.Sel.Name == "Keys" || t.Sel.Name == "Values" || t.Sel.Name == "All") {
+							order := "unsorted"
+							if sorts {
+								order = "sorted"
+							}
+							ranges = append(ranges, [2]string{fn + "::" + name + "::maps." + t.Sel.Name, order})
+						}
 					case *ast.AssignStmt:
 						for _, l := range t.Lhs {
 							if fld := recvField(l); fld != "" && (recvType == "Keeper" || recvType == "Haqq") {
